@@ -11,3 +11,4 @@ import RustCcModel.Properties.C12
 #print axioms RustCc.C12.tracing_flag_of_every_callback
 #print axioms RustCc.C12.not_tracing_unless_collector_on_top
 #print axioms RustCc.C12.tracing_when_pass_on_top
+#print axioms RustCc.C12.collections_never_nest
